@@ -12,10 +12,17 @@ level rejects the single faults it owns).
        (`triValidate_implies_isValid`, `checkL3_completion_iff`).
  * §5  single-fault rejection theorems `reject_*` (for ANY complex `K`).
  * §6  non-vacuity: a concrete valid two-triangle complex and a corrupted copy.
+ * §7  connectivity: `connected_iff` (`connected` = every stored cell is `Reach`able from the first
+       one), via `reachFuel_sound` / `reachFuel_complete` / `reachFuel_nodup`; examples.
+ * §8  ridge links: `linkGraphOk_iff` (= `LinkGraphSpec`: path-connected, degree ≤ 2, 0 or 2
+       degree-1 vertices), `ridgeLinksOk_iff`, `reject_ridge_link_*`; star / bow-tie examples.
+       (helpers for §7/§8: Lemmas/ReachAux.lean, Lemmas/LinkAux.lean, core-only as well)
 
 Helper lemmas live in Lemmas/CxAux.lean.  Everything here is core-only.
 -/
 import DelaunayModel.Lemmas.CxAux
+import DelaunayModel.Lemmas.ReachAux
+import DelaunayModel.Lemmas.LinkAux
 namespace DM.C05
 
 open DM
@@ -561,5 +568,321 @@ theorem twoTriBad_L2 : checkL2 twoTriBad = false := by decide
 theorem twoTriBad_is_one_way :
     facetOthers twoTriBad ⟨1, [1, 3, 2], some [none, none, none]⟩ 1 = [(0, 0)] ∧
     nbSlot ⟨1, [1, 3, 2], some [none, none, none]⟩ 1 = none := by decide
+
+/-! ## §7 Level 3: connectivity (`connected`) = every stored cell is reachable from the first one
+
+`PointsTo K a b`: a stored cell with id `a` lists `b` among its neighbour pointers;
+`Reach K a b`: reflexive-transitive closure of `PointsTo` through stored cell ids
+(both defined in Lemmas/ReachAux.lean). -/
+
+/-- every id the BFS collects is reachable from the start cell and is the id of a stored cell
+(any fuel; needs no uniqueness of ids) -/
+theorem reachFuel_sound (K : Cx) (c : Cell) (hc : c ∈ K.cells) (f : Nat) :
+    ∀ x ∈ reachFuel K f [c.id], Reach K c.id x ∧ ∃ t ∈ K.cells, t.id = x := by
+  refine reachFuel_induct K (fun s => ∀ x ∈ s, Reach K c.id x ∧ ∃ t ∈ K.cells, t.id = x) ?_ f
+    [c.id] ?_
+  · intro s hs x hx
+    rcases (mem_reachStep K s x).1 hx with hx | ⟨ht, a, ha, hp⟩
+    · exact hs x hx
+    · exact ⟨Reach.step (hs a ha).1 hp ht, ht⟩
+  · intro x hx
+    rw [List.mem_singleton] at hx
+    subst hx
+    exact ⟨Reach.refl, c, hc, rfl⟩
+
+/-- the BFS result is duplicate-free, consists of stored cell ids, and so is at most as long as
+the cell list (any fuel; needs no uniqueness of ids) -/
+theorem reachFuel_nodup (K : Cx) (c : Cell) (hc : c ∈ K.cells) (f : Nat) :
+    (reachFuel K f [c.id]).Nodup ∧ (∀ x ∈ reachFuel K f [c.id], ∃ t ∈ K.cells, t.id = x) ∧
+      (reachFuel K f [c.id]).length ≤ K.cells.length := by
+  have hnd : (reachFuel K f [c.id]).Nodup :=
+    reachFuel_induct K List.Nodup (reachStep_nodup K) f [c.id] (by simp)
+  have hs : ∀ x ∈ reachFuel K f [c.id], ∃ t ∈ K.cells, t.id = x :=
+    fun x hx => (reachFuel_sound K c hc f x hx).2
+  refine ⟨hnd, hs, ?_⟩
+  rw [← cellIds_length]
+  exact nodup_subset_length_le hnd (fun x hx => mem_cellIds.2 (hs x hx))
+
+/-- with fuel `cells.length` the BFS reaches its fixpoint, so it collects every id reachable from
+the start cell (needs no uniqueness of ids; a reachable id is automatically a stored one) -/
+theorem reachFuel_complete (K : Cx) (c : Cell) (hc : c ∈ K.cells) (d : Nat)
+    (hr : Reach K c.id d) : d ∈ reachFuel K K.cells.length [c.id] := by
+  have hfix : reachStep K (reachFuel K K.cells.length [c.id]) = reachFuel K K.cells.length [c.id] :=
+    reachFuel_fixpoint K K.cells.length [c.id] (by simp)
+      (fun x hx => by
+        rw [List.mem_singleton] at hx
+        subst hx
+        exact mem_cellIds.2 ⟨c, hc, rfl⟩)
+      (by simp)
+  exact reach_mem_of_fixpoint K _ hfix ((reachFuel_suffix K _ [c.id]).subset (by simp)) hr
+
+/-- the BFS result is exactly the set of ids reachable from the start cell -/
+theorem mem_reachFuel_iff (K : Cx) (c : Cell) (hc : c ∈ K.cells) (d : Nat) :
+    d ∈ reachFuel K K.cells.length [c.id] ↔ Reach K c.id d :=
+  ⟨fun h => (reachFuel_sound K c hc _ d h).1, reachFuel_complete K c hc d⟩
+
+/-- `connected` without any side condition: the complex is empty, or the cell ids are pairwise
+distinct and every stored cell is reachable from the first one -/
+theorem connected_iff' (K : Cx) :
+    connected K = true ↔
+      (K.cells = [] ∨ ((K.cells.map (·.id)).Nodup ∧
+        ∃ c, K.cells.head? = some c ∧ ∀ d ∈ K.cells, Reach K c.id d.id)) := by
+  unfold connected
+  cases hcells : K.cells with
+  | nil => simp
+  | cons c rest =>
+    have hc : c ∈ K.cells := by rw [hcells]; simp
+    obtain ⟨hnd, hs, _⟩ := reachFuel_nodup K c hc K.cells.length
+    have hs' : ∀ x ∈ reachFuel K K.cells.length [c.id], x ∈ cellIds K :=
+      fun x hx => mem_cellIds.2 (hs x hx)
+    simp only [List.head?_cons, Option.some.injEq, exists_eq_left', reduceCtorEq, false_or,
+      beq_iff_eq]
+    rw [← hcells]
+    constructor
+    · intro hlen
+      have hsub := subset_of_nodup_subset_length_eq hnd hs'
+        (by rw [cellIds_length, hlen]; exact Nat.le_refl _)
+      refine ⟨?_, fun d hd => ?_⟩
+      · exact nodup_of_nodup_subset_length_eq (l₂ := cellIds K) hnd hs'
+          (by rw [cellIds_length, hlen]; exact Nat.le_refl _)
+      · exact (mem_reachFuel_iff K c hc d.id).1 (hsub d.id (mem_cellIds.2 ⟨d, hd, rfl⟩))
+    · rintro ⟨hids, hall⟩
+      have h1 := nodup_subset_length_le hnd hs'
+      have h2 : (cellIds K).length ≤ (reachFuel K K.cells.length [c.id]).length :=
+        nodup_subset_length_le hids (fun x hx => by
+          obtain ⟨t, ht, rfl⟩ := mem_cellIds.1 hx
+          exact reachFuel_complete K c hc t.id (hall t ht))
+      rw [cellIds_length] at h1 h2
+      omega
+
+/-- `connected` under the Level-2 fact that cell ids are distinct: the complex is empty or every
+stored cell is reachable from the first one by following neighbour pointers -/
+theorem connected_iff (K : Cx) (hnd : (K.cells.map (·.id)).Nodup) :
+    connected K = true ↔
+      (K.cells = [] ∨ ∃ c, K.cells.head? = some c ∧ ∀ d ∈ K.cells, Reach K c.id d.id) := by
+  rw [connected_iff']
+  exact or_congr Iff.rfl ⟨fun h => h.2, fun h => ⟨hnd, h⟩⟩
+
+/-- a complex with a repeated cell id and at least one cell is never `connected` -/
+theorem connected_false_of_dup_ids (K : Cx) (hne : K.cells ≠ [])
+    (hdup : ¬ (K.cells.map (·.id)).Nodup) : connected K = false := by
+  rw [← Bool.not_eq_true, connected_iff']
+  rintro (h | h)
+  · exact hne h
+  · exact hdup h.1
+
+/-! ### non-vacuity for §7 -/
+
+theorem twoTri_connected : connected twoTri = true := by decide
+
+/-- the ∀ side of `connected_iff` is inhabited: both triangles are reachable from `c0` -/
+theorem twoTri_reach : ∀ d ∈ twoTri.cells, Reach twoTri 0 d.id := by
+  rcases (connected_iff twoTri (by decide)).1 twoTri_connected with h | ⟨c, hc, h⟩
+  · exact absurd h (by decide)
+  · have : c = ⟨0, [0, 1, 2], some [some 1, none, none]⟩ := by
+      have hc' : twoTri.cells.head? = some c := hc
+      simp only [twoTri, List.head?_cons, Option.some.injEq] at hc'
+      exact hc'.symm
+    subst this
+    exact h
+
+/-- two edges `[0,1]`, `[1,2]` in dimension 1 that point to each other: connected -/
+def twoSeg : Cx :=
+  { D := 1, verts := [],
+    cells := [⟨0, [0, 1], some [some 1, none]⟩, ⟨1, [1, 2], some [none, some 0]⟩] }
+
+/-- the same two cells without neighbour pointers: not connected -/
+def twoSegApart : Cx :=
+  { D := 1, verts := [], cells := [⟨0, [0, 1], none⟩, ⟨1, [1, 2], none⟩] }
+
+theorem twoSeg_connected : connected twoSeg = true := by decide
+theorem twoSegApart_not_connected : connected twoSegApart = false := by decide
+
+/-- … and in `twoSegApart` cell 1 is indeed not reachable from cell 0 -/
+theorem twoSegApart_not_reach : ¬ Reach twoSegApart 0 1 := by
+  intro h
+  have := (mem_reachFuel_iff twoSegApart ⟨0, [0, 1], none⟩ (by simp [twoSegApart]) 1).2 h
+  revert this
+  decide
+
+/-! ## §8 Level 3: ridge links (`linkGraphOk`, `ridgeLinksOk`)
+
+For an edge list `es` (Lemmas/LinkAux.lean): `IsVert es v` — `v` is an endpoint of some edge;
+`Adj es a b` — `(a,b)` or `(b,a)` is an edge; `GReach es a b` — a path of edges from `a` to `b`.
+`dedupEdges es` is the list of distinct undirected edges (each written smaller endpoint first):
+`mem_dedupEdges_iff`, `dedupEdges_nodup`; it has the same vertices and the same adjacency as `es`
+(`isVert_dedupEdges`, `adj_dedupEdges`). -/
+
+/-- undirected degree: number of distinct undirected edges of `es` at `v` -/
+def udeg (es : List (Nat × Nat)) (v : Nat) : Nat := degIn (dedupEdges es) v
+
+/-- the distinct vertices of `es` of undirected degree 1 -/
+def deg1Verts (es : List (Nat × Nat)) : List Nat :=
+  (graphVerts (dedupEdges es)).filter (fun v => udeg es v == 1)
+
+theorem mem_dedupEdges_iff (es : List (Nat × Nat)) (x : Nat × Nat) :
+    x ∈ dedupEdges es ↔ ∃ e ∈ es, normEdge e = x :=
+  mem_dedupEdges es x
+
+/-- `udeg` is the length of a duplicate-free list: the distinct normalised edges containing `v` -/
+theorem udeg_eq (es : List (Nat × Nat)) (v : Nat) :
+    udeg es v = ((dedupEdges es).filter (fun e => e.1 == v || e.2 == v)).length ∧
+    ((dedupEdges es).filter (fun e => e.1 == v || e.2 == v)).Nodup ∧
+    ∀ x, x ∈ (dedupEdges es).filter (fun e => e.1 == v || e.2 == v) ↔
+      (∃ e ∈ es, normEdge e = x) ∧ (x.1 = v ∨ x.2 = v) := by
+  refine ⟨degIn_eq_length_filter _ _, (dedupEdges_nodup es).sublist List.filter_sublist, ?_⟩
+  intro x
+  simp only [List.mem_filter, mem_dedupEdges, Bool.or_eq_true, beq_iff_eq]
+
+/-- `deg1Verts` is duplicate-free and lists exactly the vertices of undirected degree 1 -/
+theorem deg1Verts_spec (es : List (Nat × Nat)) :
+    (deg1Verts es).Nodup ∧ ∀ v, v ∈ deg1Verts es ↔ IsVert es v ∧ udeg es v = 1 := by
+  refine ⟨(graphVerts_nodup _).sublist List.filter_sublist, ?_⟩
+  intro v
+  simp only [deg1Verts, List.mem_filter, mem_graphVerts, isVert_dedupEdges, beq_iff_eq]
+
+/-- what `linkGraphOk` checks: any two vertices are joined by a path, every vertex has undirected
+degree ≤ 2, and the number of degree-1 vertices is 0 or 2 (or exactly `k` when `some k` is
+requested).  The empty edge list satisfies this. -/
+def LinkGraphSpec (es : List (Nat × Nat)) (needDeg1 : Option Nat) : Prop :=
+  (∀ u v, IsVert es u → IsVert es v → GReach es u v) ∧
+  (∀ v, IsVert es v → udeg es v ≤ 2) ∧
+  (match needDeg1 with
+   | none => (deg1Verts es).length = 0 ∨ (deg1Verts es).length = 2
+   | some k => (deg1Verts es).length = k)
+
+theorem graphConnected_iff (es : List (Nat × Nat)) :
+    graphConnected es = true ↔ ∀ u v, IsVert es u → IsVert es v → GReach es u v :=
+  DM.graphConnected_iff es
+
+theorem linkGraphOk_iff (es : List (Nat × Nat)) (needDeg1 : Option Nat) :
+    linkGraphOk es needDeg1 = true ↔ LinkGraphSpec es needDeg1 := by
+  unfold linkGraphOk LinkGraphSpec
+  simp only [Bool.and_eq_true, DM.graphConnected_iff, List.all_eq_true, mem_graphVerts,
+    decide_eq_true_eq, isVert_dedupEdges, greach_dedupEdges, and_assoc]
+  refine and_congr Iff.rfl (and_congr Iff.rfl ?_)
+  cases needDeg1 with
+  | none =>
+    simp only [Bool.or_eq_true, beq_iff_eq, List.countP_eq_length_filter]
+    exact Iff.rfl
+  | some k =>
+    simp only [beq_iff_eq, List.countP_eq_length_filter]
+    exact Iff.rfl
+
+/-- the ridges are the distinct sorted `k`-element vertex subsets of the cells -/
+theorem mem_facesK_iff (K : Cx) (k : Nat) (r : List Nat) :
+    r ∈ facesK K k ↔ ∃ c ∈ K.cells, r.Sublist (cellKey c) ∧ r.length = k :=
+  mem_facesK K k r
+
+/-- one link edge `(a, b)` per cell that contains the ridge and has exactly the two further
+vertices `a`, `b` (in slot order) -/
+theorem mem_ridgeLinkEdges_iff (K : Cx) (r : List Nat) (a b : Nat) :
+    (a, b) ∈ ridgeLinkEdges K r ↔
+      ∃ c ∈ K.cells, (∀ v ∈ r, v ∈ c.vs) ∧ c.vs.filter (fun v => !r.contains v) = [a, b] :=
+  mem_ridgeLinkEdges K r a b
+
+/-- `ridgeLinksOk`: in dimension ≥ 2 and with at least one cell, the link graph of every ridge
+(face with `D-1` vertices) satisfies `LinkGraphSpec` -/
+theorem ridgeLinksOk_iff (K : Cx) :
+    ridgeLinksOk K = true ↔
+      (K.D < 2 ∨ K.cells = [] ∨
+        ∀ r ∈ facesK K (K.D - 1), LinkGraphSpec (ridgeLinkEdges K r) none) := by
+  unfold ridgeLinksOk
+  by_cases hD : K.D < 2
+  · simp [hD]
+  · by_cases hc : K.cells = []
+    · simp [hc]
+    · have hc' : K.cells.isEmpty = false := by
+        rw [← Bool.not_eq_true, List.isEmpty_iff]; exact hc
+      simp only [hD, hc, hc', if_false, false_or, List.all_eq_true, linkGraphOk_iff,
+        Bool.false_eq_true]
+
+/-- a ridge whose link graph has a vertex of undirected degree ≥ 3 (e.g. a ridge shared by three
+cells whose link is a star) is rejected -/
+theorem reject_ridge_link_overdegree (K : Cx) (hD : 2 ≤ K.D) (r : List Nat)
+    (hr : r ∈ facesK K (K.D - 1)) (v : Nat) (hv : IsVert (ridgeLinkEdges K r) v)
+    (hdeg : 3 ≤ udeg (ridgeLinkEdges K r) v) : ridgeLinksOk K = false := by
+  rw [← Bool.not_eq_true, ridgeLinksOk_iff]
+  rintro (h | h | h)
+  · omega
+  · obtain ⟨c, hc, _⟩ := (mem_facesK_iff K _ r).1 hr
+    rw [h] at hc
+    cases hc
+  · have := (h r hr).2.1 v hv
+    omega
+
+/-- a ridge whose link graph has two vertices not joined by a path is rejected -/
+theorem reject_ridge_link_disconnected (K : Cx) (hD : 2 ≤ K.D) (r : List Nat)
+    (hr : r ∈ facesK K (K.D - 1)) (u v : Nat) (hu : IsVert (ridgeLinkEdges K r) u)
+    (hv : IsVert (ridgeLinkEdges K r) v) (hn : ¬ GReach (ridgeLinkEdges K r) u v) :
+    ridgeLinksOk K = false := by
+  rw [← Bool.not_eq_true, ridgeLinksOk_iff]
+  rintro (h | h | h)
+  · omega
+  · obtain ⟨c, hc, _⟩ := (mem_facesK_iff K _ r).1 hr
+    rw [h] at hc
+    cases hc
+  · exact hn ((h r hr).1 u v hu hv)
+
+/-- a failed ridge-link check fails Level 3 at guarantee ≥ 1 -/
+theorem checkL3_false_of_ridgeLinks (K : Cx) (g : Guarantee) (b : Bool) (hg : g ≥ 1)
+    (h : ridgeLinksOk K = false) : checkL3 K g b = false := by
+  rw [← Bool.not_eq_true, checkL3_iff]
+  rintro ⟨_, _, _, hr, _⟩
+  rw [hr hg] at h
+  cases h
+
+/-! ### non-vacuity for §8 -/
+
+/-- a path and a cycle pass; a star and two disjoint edges fail; the empty graph passes -/
+theorem linkGraphOk_path : linkGraphOk [(1, 2), (2, 3)] = true := by decide
+theorem linkGraphOk_cycle : linkGraphOk [(1, 2), (2, 3), (3, 1)] = true := by decide
+theorem linkGraphOk_star : linkGraphOk [(1, 2), (1, 3), (1, 4)] = false := by decide
+theorem linkGraphOk_two_edges : linkGraphOk [(1, 2), (3, 4)] = false := by decide
+theorem linkGraphOk_nil : linkGraphOk [] = true := by decide
+/-- a doubled edge counts once -/
+theorem linkGraphOk_doubled : linkGraphOk [(1, 2), (2, 1)] = true := by decide
+
+theorem twoTri_ridgeLinks : ridgeLinksOk twoTri = true := by decide
+
+/-- so the ∀ side of `ridgeLinksOk_iff` is inhabited -/
+theorem twoTri_ridgeLinks_spec :
+    ∀ r ∈ facesK twoTri 1, LinkGraphSpec (ridgeLinkEdges twoTri r) none := by
+  rcases (ridgeLinksOk_iff twoTri).1 twoTri_ridgeLinks with h | h | h
+  · exact absurd h (by decide)
+  · exact absurd h (by decide)
+  · exact h
+
+/-- three triangles `[0,1,2]`, `[0,1,3]`, `[0,1,4]` around the edge `0–1`: the link of the ridge
+(vertex) `0` is the star `1–2, 1–3, 1–4` with centre of degree 3 -/
+def fanStar : Cx :=
+  { D := 2, verts := [],
+    cells := [⟨0, [0, 1, 2], none⟩, ⟨1, [0, 1, 3], none⟩, ⟨2, [0, 1, 4], none⟩] }
+
+theorem fanStar_link : ridgeLinkEdges fanStar [0] = [(1, 2), (1, 3), (1, 4)] := by decide
+theorem fanStar_rejected : ridgeLinksOk fanStar = false := by decide
+
+/-- … and it is the fault of `reject_ridge_link_overdegree` -/
+theorem fanStar_is_overdegree :
+    [0] ∈ facesK fanStar (fanStar.D - 1) ∧ IsVert (ridgeLinkEdges fanStar [0]) 1 ∧
+      udeg (ridgeLinkEdges fanStar [0]) 1 = 3 := by
+  refine ⟨by decide, ?_, by decide⟩
+  rw [fanStar_link]
+  exact ⟨(1, 2), by simp, Or.inl rfl⟩
+
+/-- two triangles `[0,1,2]`, `[0,3,4]` touching only in vertex `0` (a pinched vertex): the link of
+the ridge `0` is the two disjoint edges `1–2`, `3–4` -/
+def bowTie : Cx :=
+  { D := 2, verts := [], cells := [⟨0, [0, 1, 2], none⟩, ⟨1, [0, 3, 4], none⟩] }
+
+theorem bowTie_link : ridgeLinkEdges bowTie [0] = [(1, 2), (3, 4)] := by decide
+theorem bowTie_rejected : ridgeLinksOk bowTie = false := by decide
+
+/-- … and the link of `0` is indeed not connected -/
+theorem bowTie_link_disconnected :
+    ¬ ∀ u v, IsVert (ridgeLinkEdges bowTie [0]) u → IsVert (ridgeLinkEdges bowTie [0]) v →
+      GReach (ridgeLinkEdges bowTie [0]) u v := by
+  rw [← graphConnected_iff, bowTie_link]
+  decide
 
 end DM.C05
